@@ -59,6 +59,71 @@ def _loop_of(f, node):
     return None
 
 
+def _predicate_loop(f, w, rec):
+    """(ok, predicate fields).  ok: the wait w lies on a CFG cycle and every path from it out of the cycle passes a
+    conditional branch that re-reads fields of record `rec` (or a local assigned from one inside the cycle)."""
+    from mtblcheck import cfg as CFG_
+    B = f.block_of(w)
+    if B is None:
+        return False, set()
+    loops = [body for h, body in CFG_.natural_loops(f).items() if B.id in body]
+    if not loops:
+        return False, set()
+    body = min(loops, key=len)
+    # locals assigned inside the cycle from the shared record
+    via = {}
+    for b in body:
+        for r in f.blocks[b].roots:
+            for n in walk(r):
+                tgt, src = None, None
+                if n["k"] == "BinaryOperator" and n.get("op") == "=" and strip(n["kids"][0])["k"] == "DeclRefExpr" \
+                        and strip(n["kids"][0]).get("dk") == "local":
+                    tgt, src = strip(n["kids"][0])["name"], n["kids"][1]
+                elif n["k"] == "DeclStmt":
+                    for d in n["decls"]:
+                        if d.get("init") is not None:
+                            flds = set((x.get("rec"), x["field"]) for x in walk(d["init"]) if x["k"] == "MemberExpr" and x.get("rec") == rec)
+                            if flds:
+                                via.setdefault(d["name"], set()).update(flds)
+                if tgt is not None:
+                    flds = set((x.get("rec"), x["field"]) for x in walk(src) if x["k"] == "MemberExpr" and x.get("rec") == rec)
+                    if flds:
+                        via.setdefault(tgt, set()).update(flds)
+
+    def cond_fields(b):
+        Bk = f.blocks[b]
+        if Bk.cond is None or len([s for s in Bk.succs if s is not None]) < 2:
+            return set()
+        out = set()
+        for x in walk(Bk.cond):
+            if x["k"] == "MemberExpr" and x.get("rec") == rec and x["field"] not in ("m", "c"):
+                out.add((x.get("rec"), x["field"]))
+            if x["k"] == "DeclRefExpr" and x.get("dk") == "local" and x["name"] in via:
+                out |= via[x["name"]]
+        return out
+
+    fields = set()
+    for b in body:
+        fields |= cond_fields(b)
+    # the wait's own block ends in such a branch (the wait precedes the terminator): every way on passes it
+    if cond_fields(B.id):
+        return True, fields
+    seen, stack = set(), [s for s in B.succs if s is not None]
+    while stack:
+        b = stack.pop()
+        if b in seen:
+            continue
+        seen.add(b)
+        if b not in body:
+            return False, fields       # left the cycle without re-reading the shared state
+        if cond_fields(b):
+            continue
+        if b == B.id:
+            continue
+        stack.extend(s for s in f.blocks[b].succs if s is not None)
+    return True, fields
+
+
 def r1_cv(ctx, res, Tcv):
     prog, cg = ctx.prog, ctx.cg
     res.floor("C13.R1", 12)
@@ -84,15 +149,14 @@ def r1_cv(ctx, res, Tcv):
             continue
         res.check(row["mutex"] == "%s.%s" % mc and FX.lock_obj(a[0]) == FX.lock_obj(a[1]), "C13.R1", sig + ":pairing",
                   "waits with its own mutex %s" % row["mutex"], "condvar %s.%s waited with mutex %s.%s of %s" % (cvc + mc + (FX.lock_obj(a[1]),)), f.loc(w))
-        L = _loop_of(f, w)
-        inloop = L is not None and L["k"] in ("WhileStmt", "DoStmt") and L.get("cond") is not None
+        # decided on the flow graph, not on the loop's syntax: the wait lies on a cycle, and no path leads from the wait out of
+        # that cycle without first passing a branch that reads the shared state again (directly, or through a local that was
+        # assigned from it inside the cycle)
+        inloop, pf = _predicate_loop(f, w, cvc[0])
         res.check(inloop, "C13.R1", sig + ":loop", "wait is re-checked in a loop over its predicate",
                   "pthread_cond_wait is not inside a predicate loop: a spurious or stolen wake-up proceeds with the predicate false", f.loc(w))
         if inloop:
-            # the wait must be the loop's own body (not nested in a further conditional that could skip re-evaluation)
-            for x in walk(L["cond"]):
-                if x["k"] == "MemberExpr":
-                    preds.setdefault(cvc, set()).add((x.get("rec"), x["field"]))
+            preds.setdefault(cvc, set()).update(pf)
     # predicate field table agrees
     for cvc, row in cvs.items():
         want = set(tuple(p.split(".")) for p in row["predicate_fields"])
